@@ -95,6 +95,33 @@ def step (ts : List String) : String :=
   | ["cylgeom", ro, h, nr, nz, ri, np, per] =>
       let g : CylGeom Float := cylGeom (pF ro) (pF h) (pN nr) (pN nz) (pF ri) (pN np) (pF per)
       fFs [g.dr, g.dphi, g.dz, g.step, g.rOuter, g.rInner, g.height]
+  | "ihist" :: st0 :: ms0 :: ops =>
+      -- integrator setter history: tokens `s <float>` / `m <int>`; prints one status per write, then the final state
+      let rec go (st : IntegState Float) (acc : List String) : List String → IntegState Float × List String
+        | "s" :: v :: rest => let o := st.setStep (pF v); go o.state (acc ++ [fB o.isOk]) rest
+        | "m" :: v :: rest => let o := st.setMinSamples (pI v); go o.state (acc ++ [fB o.isOk]) rest
+        | _ => (st, acc)
+      let (fin, acc) := go { step := pF st0, minSamples := pI ms0 } [] ops
+      " ".intercalate acc ++ s!" | {fF fin.step} {fin.minSamples}"
+  | "pipe0d" :: rest =>
+      -- history of observes on ONE pipeline: `<bins> <nres> (<nsamples> <bins floats>)*` repeated; prints every matrix
+      let rec results (bins : Nat) : Nat → List String → List (List Float × Nat) × List String
+        | 0, ts => ([], ts)
+        | k + 1, n :: ts =>
+            let (fs, ts') := takeF bins ts
+            let (rs, ts'') := results bins k ts'
+            ((fs, pN n) :: rs, ts'')
+        | _, ts => ([], ts)
+      let rec obs (fuel : Nat) (p : Pipe0D Float) (acc : List String) : List String → List String
+        | b :: n :: ts =>
+            match fuel with
+            | 0 => acc
+            | fuel + 1 =>
+              let (rs, ts') := results (pN b) (pN n) ts
+              let p' := p.observe (pN b) rs
+              obs fuel p' (acc ++ [fFs p'.matrix]) ts'
+        | _ => acc
+      " | ".intercalate (obs 64 Pipe0D.new [] rest)
   | ["fmod", x, p] => fF (fmodF (pF x) (pF p))
   | _ => "bad-op"
 
